@@ -4,6 +4,7 @@ They are re-decided against `Gen.HtmlQuote.table` on every run: a harmful table 
 (e.g. dropping the escape of `'`) turns `shape` red, a harmless one keeps it green.
 -/
 import SquidModel.Html.Quote
+import SquidModel.Base.Finite
 
 namespace SquidModel.Html
 
@@ -21,20 +22,6 @@ def shapeOk (n : Nat) : Bool :=
          !(body.contains 59) && body.length ≤ 4 && decodeEntity body == some b
        | _ => false)
     | _ => false
-
-def allBelow : Nat → (Nat → Bool) → Bool
-  | 0, _ => true
-  | n + 1, p => p n && allBelow n p
-
-theorem allBelow_spec {n : Nat} {p : Nat → Bool} (h : allBelow n p = true) : ∀ k, k < n → p k = true := by
-  induction n with
-  | zero => intro k hk; omega
-  | succ n ih =>
-    simp only [allBelow, Bool.and_eq_true] at h
-    intro k hk
-    by_cases hkn : k = n
-    · subst hkn; exact h.1
-    · exact ih h.2 k (by omega)
 
 theorem shape_table : allBelow 256 shapeOk = true := by decide +kernel
 
